@@ -498,7 +498,9 @@ func (c *Controller) recomputeServiceForPod(pod *v1.Pod) {
 		conv, f := c.servicesMap[hostname]
 		c.Unlock()
 		if !f {
-			return
+			// Not converted yet (its event is still queued). Skip it, but do not give up on the other Services of the
+			// pod: the list is unordered, so which of them would be recomputed used to depend on map iteration order.
+			continue
 		}
 		shard := model.ShardKeyFromRegistry(c)
 		endpoints := c.buildEndpointsForService(conv, true)
